@@ -23,7 +23,7 @@
    No well-formedness condition on the configuration is needed for C08. *)
 From Coq Require Import List ZArith NArith Bool.
 From PC.Base Require Import Assoc.
-From PC.Sup Require Import Model Monitors Sim RelC08 RelC08b SpecC08 ExC08.
+From PC.Sup Require Import Model Monitors Sim RelCore Agreement RelC08 RelC08b SpecC08 ExC08.
 Import ListNotations.
 
 (* Every history of the model that did not go through the dup or the zombie window satisfies the
@@ -109,6 +109,13 @@ Theorem C08_zombie_only : exists cs ord evs s, accept (init cs ord) evs = Some s
   windows_of (final_obs cs evs) = [true; false; false; false; false; false; false] /\ holds_C08 cs evs = false.
 Proof. exact C08_zombie_only_lemma. Qed.
 Print Assumptions C08_zombie_only.
+
+(* (kept from the interim statement file) every accepted history keeps the observer's picture, on which
+   the monitor is evaluated, in agreement with the model state *)
+Theorem C08_observer_agrees_with_model : forall cs ord evs s,
+  accept (init cs ord) evs = Some s -> Rc cs s (final_obs cs evs).
+Proof. exact sup_agreement. Qed.
+Print Assumptions C08_observer_agrees_with_model.
 
 (* non-vacuity of C08_no_stop_pending where C08_main does not apply: a RestartProcess of a running
    process whose successor is created inside the zombie window (44 events) *)
